@@ -16,8 +16,8 @@ LEVEL_NOTE = ("Trusted: Lean kernel, standard axioms only; the hand-written mirr
               "only observe or raise (they do not mutate the tree); asynchronous exceptions between the two statements "
               "of an ATOMIC block and mixed NodeMixin/LightNodeMixin trees are outside the model; non-node arguments to "
               "LightNodeMixin classes are outside the model."
-              " Hooks that make structural calls of their own are outside the model (its hooks observe or raise); one class of them - a hook that detaches ANOTHER node while the call is in progress - is exercised in the correspondence run against the mirror run on the nested call followed by the outer one (driver field pre_ops); for a parent assignment this equivalence is proved of the extended mirror (Model/ForestR.lean, C02r.setParentR_eq_seq, inv_setParentR); for children assignment/deletion it is searched, not proved.")
-MODULES = ['Anytree.Props.C01', 'Anytree.Props.C01b', 'Anytree.Props.C01c', 'Anytree.Props.C01d', 'Anytree.Props.C02r']
+              " Hooks that make structural calls of their own are outside the model (its hooks observe or raise); one class of them - a hook that detaches ANOTHER node while the call is in progress - is exercised in the correspondence run against the mirror run on the nested call followed by the outer one (driver field pre_ops); for a parent assignment this equivalence is proved of the extended mirror (Model/ForestR.lean, C02r.setParentR_eq_seq, inv_setParentR); for the children deleter as well (C02s.delChildrenR_eq_seq, inv_delChildrenR); for the attach phase of a children assignment it is searched, not proved.")
+MODULES = ['Anytree.Props.C01', 'Anytree.Props.C01b', 'Anytree.Props.C01c', 'Anytree.Props.C01d', 'Anytree.Props.C02r', 'Anytree.Props.C02s']
 THEOREMS = [
     ("Anytree.Props.C01.inv_empty", "full"),
     ("Anytree.Props.C01.inv_detachRaw", "full"),
@@ -45,6 +45,7 @@ THEOREMS = [
     ("Anytree.Props.C01d.fuel_suffices_faults", "full"),
     ("Anytree.Props.C01d.fuel_suffices_oneshot", "full"),
     ("Anytree.Props.C02r.inv_setParentR", "full"),
+    ("Anytree.Props.C02s.inv_delChildrenR", "full"),
 ]
 NOT_COVERED = ["the fuel of the mirror is proved never to be the reason for an outcome when the fault schedule is bounded (C01d.fuel_suffices_faults: faults only at invocation counters below B, fuel above s.n+B+5; C01c.fuel_suffices without faults); for an unbounded (persistent) schedule no fuel suffices, and the implementation agrees: RecursionError, finding K4 (K4_persistent_preAttachChildren_diverges)"]
 ASSERTION_SETTINGS = (False, True)
